@@ -27,6 +27,16 @@ func runC20(e *Engine, r *Report, tier string) {
 	r.Rule("R2", "panic-capable sites in stateless validation are discharged", 10, "sites in the validation closure")
 	r.Rule("R3", "precompile arguments only through ParseMethodArgs -> Validate()", 20, "implementers of contract.PrecompileMethod")
 	r.Rule("R4", "ante handler recovers panics", 1, "")
+	r.Rule("R7", "an amount taken from precompile call data is bounded by on-chain state before it is multiplied (C11.R2 bounded-before-priced): overflow panics of the decimal type are unreachable", 1, "C11 obligations")
+	{
+		sub11 := NewReport("C11", "other")
+		runC11(e, sub11, tier)
+		for _, o := range sub11.Obls {
+			if o.Rule == "R2" && strings.HasSuffix(o.Construct, " bounded") {
+				r.add("R7", "C11.R2 "+o.Construct, o.Status, o.Pos, o.Detail)
+			}
+		}
+	}
 	r.Rule("R6", "a search result (-1 on a miss) is never used as a slice bound or index without a test", 0, "")
 	r.Rule("R5", "parallel arrays of a decoded message / argument struct are indexed together only if its validator establishes equal lengths unconditionally", 1, "index sites bounded by another field's length")
 	e.c20ParallelArrays(r)
